@@ -57,7 +57,7 @@ def raw_cmd(bits, value):
     return Command(ForwardFrame(bits, value))
 
 
-def run_async(driver, cmds, start_seq=1, exc_on=True, answers=None):
+def run_async(driver, cmds, start_seq=1, exc_on=True, answers=None, idle=False):
     """Send cmds sequentially through an async driver; returns (raw writes, results)."""
     results = []
 
@@ -76,6 +76,7 @@ def run_async(driver, cmds, start_seq=1, exc_on=True, answers=None):
         if driver in ("tridonic", "hasseb"):
             from dalimc.aio.hidworld import HidWorld
             w = HidWorld(driver, bus, callers, start_seq=start_seq, exceptions_on_send=exc_on)
+            w.idle_reports = idle
         else:
             from dalimc.aio.serialworld import SerialWorld
             w = SerialWorld(driver, bus, callers)
@@ -91,7 +92,7 @@ def run_async(driver, cmds, start_seq=1, exc_on=True, answers=None):
     return w, results
 
 
-def check_async_decode(res, driver):
+def check_async_decode(res, driver, idle=False):
     """Gateway -> host through the whole driver: the packets by which the gateway model reports 'backward frame v', 'no
     answer' and (HID) 'framing error' decode to exactly that, for every value on a query of each answer type."""
     from dali.gear.general import QueryActualLevel, QueryStatus, QueryLampFailure
@@ -104,7 +105,7 @@ def check_async_decode(res, driver):
             cmds.append(c)
             answers[(16, c.frame.as_integer)] = out
             want.append(out)
-    w, results = run_async(driver, cmds, 1, True, answers)
+    w, results = run_async(driver, cmds, 1, True, answers, idle)
     for c, r, out in zip(cmds, results, want):
         case = {"driver": driver, "what": "classes", "bits": 16, "value": c.frame.as_integer, "twice": False, "start_seq": 1, "cls": type(c).__module__ + "." + type(c).__name__}
         res["evaluations"] += 1
@@ -304,6 +305,8 @@ def run_shard(shard):
         for i in range(0, len(cmds), 120):
             check_async_batch(res, d, cmds[i:i + 120], 1, "classes")
         check_async_decode(res, d)
+        if d == "hasseb":
+            check_async_decode(res, d, idle=True)       # ... with "no data available" reports (don't-care data byte) in between
         sample(res, {"driver": d, "classes": len(cmds)})
     elif k == "lengths":
         d = shard[1]
